@@ -475,6 +475,36 @@ def try_to_timestamp(repo: str, engines: t.List[t.Dict[str, t.Any]]) -> t.List[t
 
 
 # ------------------------------------------------------------------------------------------------
+# rint: which rounding each engine's statement uses
+# ------------------------------------------------------------------------------------------------
+
+
+def rint(repo: str, engines: t.List[t.Dict[str, t.Any]]) -> t.List[t.Tuple[str, str]]:
+    """engine -> "roundEven" (ROUND_EVEN(col, 0)) | "fromRound" (rint_from_round: round(col, 0)) | "native" (RINT(col))"""
+    ob = "Gen.EngineFns.rint"
+    fn = find_func(parse(repo, FN).body, "rint")
+    if [a.arg for a in fn.args.args] != ["col"]:
+        raise Untranslatable(ob, "unexpected parameters")
+    alt = find_func(parse(repo, FA).body, "rint_from_round")
+    ab = [x for x in _body(alt) if not isinstance(x, (ast.Import, ast.ImportFrom))]
+    if [ast.unparse(x) for x in ab] != ["round = get_func_from_session('round', _BaseSession())", "return round(col, 0)"]:
+        raise Untranslatable(ob, f"rint_from_round has an unexpected body: {[ast.unparse(x)[:60] for x in ab]}")
+    out = []
+    for e in engines:
+        ret, _ = sym_exec(_body(fn), dict(e["flags"]), {}, ob)
+        src = ast.unparse(ret)
+        if src == "Column.invoke_anonymous_function(col, 'ROUND_EVEN', lit(0))":
+            out.append((e["engine"], "roundEven"))
+        elif src == "rint_from_round(col)":
+            out.append((e["engine"], "fromRound"))
+        elif src == "Column.invoke_anonymous_function(col, 'RINT')":
+            out.append((e["engine"], "native"))
+        else:
+            raise Untranslatable(ob, f"unknown outcome for {e['engine']}: {src[:100]!r}")
+    return out
+
+
+# ------------------------------------------------------------------------------------------------
 
 
 def extract(repo: str) -> t.Dict[str, t.Any]:
@@ -489,6 +519,7 @@ def extract(repo: str) -> t.Dict[str, t.Any]:
         "sequence": sequence(repo, engines),
         "regexpReplace": regexp_replace(repo, engines),
         "tryToTimestamp": try_to_timestamp(repo, engines),
+        "rint": rint(repo, engines),
     }
 
 
@@ -550,6 +581,11 @@ def gen_engine_fns(repo: str) -> str:
     out.append("inductive FormatHelper | formatTime | formatExecutionTime deriving DecidableEq, Repr")
     out.append("/-- engine package -> (SQL function called, helper) -/")
     out.append("def tryToTimestampRows : List (String × String × FormatHelper) := [" + ", ".join(f"({lean_str(e)}, {lean_str(f)}, " + (".formatTime" if h == "format_time" else ".formatExecutionTime") + ")" for e, f, h in x["tryToTimestamp"]) + "]")
+    out.append("")
+    out.append("/-! ### rint -/")
+    out.append("/-- the rounding an engine's rendering of rint() uses: ROUND_EVEN(col, 0) | rint_from_round = round(col, 0) | the engine's RINT -/")
+    out.append("inductive RintRule | roundEven | fromRound | native deriving DecidableEq, Repr")
+    out.append("def rintRules : List (String × RintRule) := [" + ", ".join(f"({lean_str(e)}, .{k})" for e, k in x["rint"]) + "]")
     out.append("")
     out.append("end Sqlframe.Gen")
     return "\n".join(out) + "\n"
